@@ -1170,8 +1170,8 @@ PROPS["C09"] = dict(
     level_text="Proved in Coq (Properties/C09.v): order-independence of any worklist loop of pyxis's shape under monotone attempts (Confluence.v: outcome class and final state equal for every pair of permutation-valued order functions, any number of items); "
                "C09_attempt_monotone: the model's real attempt satisfies M1+M2 under two decidable side conditions (collision_free: no input item named like a generated <T>Vftable struct; clean: no module/use path or type name ends in Vftable -- without them the claim is false of pyxis itself: open findings F4b, F7b); "
                "C09_pyxis_resolve_order_independent: hence for EVERY input meeting them and ANY two permutation-valued order functions (all hook schedules: C09_hook_schedules_are_permutations) the whole front half ends in the same verdict class with the same resolved value for every input item (simulation of resolve_loop by the abstract loop, OrderIndep.v). "
-               "Not proved: that the emitter writes the same files for two accepted final states that agree on all input items -- so the claim is partial and the "
-               "property is decided on the real code by the monitor: schedule enumeration through the hook, module-order permutations, repeated and fresh-process builds, byte comparison.",
+               "C09_output_order_independent: and two accepted runs of the model write exactly the same files (the emitter reads the registry as a map and item paths up to permutation; the final registries agree on all keys). "
+               "What the model cannot say (real hash maps, the file system, process state) is decided on the real code by the monitor: schedule enumeration through the hook, module-order permutations, repeated and fresh-process builds, byte comparison.",
     level_note="Trusted: Coq kernel; the 10-line hook in TypeRegistry::unresolved (orders by a caller-chosen permutation of the sorted paths; with the guard off the code is unchanged); model validated per schedule by this run's correspondence.",
     technique="Coq proof of confluence (abstract) + monotonicity of the model's attempt + simulation (order independence of the model's front half); exhaustive/sampled schedule enumeration on the real implementation through a cfg-guarded hook",
 )
